@@ -152,9 +152,9 @@ void cc_dynamic_pool_reset(CC_DynamicPool* pool)
     PageInfo* del_page = top_page->previous;
     
     while (del_page) {
+        pool->mem_free(top_page);
         top_page = del_page;
         del_page = top_page->previous;
-        pool->mem_free(del_page);
     }
     pool->page          = (uint8_t*) top_page;
     pool->top_page_size = ((PageInfo*)top_page)->size;
